@@ -1,6 +1,7 @@
 // C10 as a rapidcheck property: generated well-formed UCI sessions on the in-process engine under ASan/UBSan,
 // preceded (once per process) by a deterministic suite that walks every fixed-size buffer's boundary.
 #include "session.h"
+#include <fstream>
 
 namespace
 {
@@ -151,6 +152,41 @@ bool prop_C10(Tape& t, Report& rep)
     if (!ok) return rep.fail("session:hang", "the engine stopped answering (no readyok / bestmove within the safety timeout)\n session: " + st.transcript);
     return true;
 }
+
+// C10script: the same session generator in record mode.  Every case appends one session to the script file named by the
+// `scriptfile` option; lib/vlib.py then feeds the script to the REAL executable (engine/main.cpp) under valgrind memcheck,
+// whose reports of uninitialised-value use are the oracle for the clause that ASan/UBSan cannot see.
+bool prop_C10script(Tape& t, Report& rep)
+{
+    std::string tmpdir = opt("tmpdir", "/tmp");
+    std::vector<std::string> script;
+    // rapidcheck starts with (nearly) empty tapes; a script case should be a full session whatever the size, so the tape is
+    // continued by the deterministic extension stream, made different per case by the case counter
+    static uint64_t caseNo = 0;
+    t.extend = true;
+    t.ext_state = (fnv1a(std::to_string(g_seed) + ":" + std::to_string(++caseNo)) | 1);
+    sess::recording() = &script;
+    sess::Stats st;
+    sess::run_session(t, st, &rep, tmpdir);
+    sess::recording() = nullptr;
+    rep.eval();
+    for (auto& kv : st.cls) rep.cls("script:" + kv.first, kv.second);
+    size_t gos = 0;
+    for (auto& l : script) gos += l.rfind("go", 0) == 0;
+    rep.cls("script:commands", script.size());
+    rep.cls("script:go_commands", gos);
+    if (gos) rep.nontriv(fnv1a(st.transcript));
+    rep.sample("c10script:session", st.transcript.substr(0, 300), 3);
+    std::string path = opt("scriptfile");
+    if (!path.empty() && !rep.frozen)
+    {
+        std::ofstream o(path, std::ios::app);
+        o << "@session\n";
+        for (auto& l : script) o << l << "\n";
+    }
+    return true;
+}
 }  // namespace
 
 REGISTER_PROP("C10", prop_C10, nullptr);
+REGISTER_PROP("C10script", prop_C10script, nullptr);
